@@ -2,8 +2,12 @@
 
 Lean: Model/SftpIO.lean (the parallel-I/O scheduler as a nondeterministic machine), Props/C12.lean
 (read_correct, write_correct, copy_correct_or_error, copy_short_source_raises, error_propagates, sparse_holes,
-fileobj_offsets, the negation witnesses read_zero_length_reply_corrupts / sparse_trailing_hole_truncated, and
-the gen_* theorems tying the integer expressions of sftp.py — regenerated into Gen/C12.lean — to the model).
+sparse_copy_exact, fileobj_offsets, the witnesses of the two repaired defects old_reader_zero_length_reply_corrupts /
+old_copier_trailing_hole_truncated, and the gen_* theorems tying the integer expressions of sftp.py — regenerated
+into Gen/C12.lean — to the model).
+The two repairs (an error on an empty DATA reply; extending a sparse destination whose source ends in a hole) are
+detected by the translator (Gen.C12.readerRejectsEmpty / copierExtendsSparse); read_correct and sparse_copy_exact
+need them (they stop building if a repair is reverted), the model and the driver follow whichever the tree has.
 Correspondence: the real _SFTPFileReader / _SFTPFileWriter / _SFTPFileCopier / SFTPClientFile driven against a
 fake handler/fs whose replies are harness-controlled futures (the PRNG picks completion order, batch sizes,
 short-read lengths, per-block errors); issued request sequence and result are compared with the Lean machine
@@ -28,19 +32,20 @@ import props._c12_translate as _tr
 PROPERTY = 'C12'
 MANIFEST = {
     'text': 'Lean 4 theorems about an executable model of asyncssh\'s parallel SFTP I/O scheduler as a '
-            'nondeterministic machine: for EVERY completion order, batch split and short-read pattern (1 <= c) a '
-            'read returns src[off:off+size] (read_correct), a write leaves pwrite(file, off, data) (write_correct), '
+            'nondeterministic machine: for EVERY completion order, batch split and short-read pattern (empty replies '
+            'included: they raise) a read returns src[off:off+size] (read_correct), a write leaves pwrite(file, off, data) (write_correct), '
             'a non-sparse get/put/copy returns only with destination = source and raises when the source ends '
             'before its announced size (copy_correct_or_error, copy_short_source_raises; no hypothesis on c), any '
             'failed block makes the operation raise (error_propagates), sparse ranges land at their own offsets '
-            '(sparse_holes), the file object position is the POSIX one (fileobj_offsets). The model is tied to the '
+            '(sparse_holes) and a sparse copy is exact for every hole layout (sparse_copy_exact), the file '
+            'object position is the POSIX one (fileobj_offsets). The model is tied to the '
             'code by a translator for the integer expressions (gen_* theorems re-proved every run) and by a '
             'differential run of the real reader/writer/copier/file object against harness-controlled futures; the '
             'property itself is evaluated on the real code incl. real sparse files and an out-of-order, '
             'short-reading in-process server.',
     'note': 'server-side application order of concurrent writes is modelled as completion order; the kernel\'s '
-            'SEEK_DATA/SEEK_HOLE and the server\'s copy-data loop are exercised, not modelled; 1 <= c is a hypothesis '
-            'of read_correct and the excluded point is replayed on the real code',
+            'SEEK_DATA/SEEK_HOLE and the server\'s copy-data loop are exercised, not modelled; the two repaired '
+            'defects are kept as Lean witnesses about the pre-fix model and as oracle signatures',
     'technique': 'Lean 4 proof by invariant over the reachable states of a nondeterministic scheduler machine + '
                  'AST translator for integer expressions + differential correspondence with controlled futures + '
                  'byte-equality oracle',
@@ -57,7 +62,7 @@ ASSUMPTIONS = [
     'block_size >= 1 and max_requests >= 1 inside the scheduler (entry points replace non-positive values: '
     'gen_default_max_requests)',
     'the server is truthful: DATA replies carry bytes of the file at the requested offset, at most as many as '
-    'requested; read_correct additionally needs every DATA reply to be non-empty',
+    'requested (an empty reply is allowed: the reader raises on it)',
     'the source content does not change during a transfer (except where the oracle truncates it on purpose)',
 ]
 
